@@ -22,7 +22,7 @@ META = {
                    "O-agree/O-err/O-int, run here); (c) list counts on the wire equal element counts and decoders rebuild exactly count elements (C15/C16 "
                    "rules, run here); (d) MSM rows and 1230 entries are written in the canonical order the decoder reconstructs (S-sort, S-asc, M-order); "
                    "(e) number <-> variant <-> codec dispatch is coherent, Err maps to Corrupt only (C14 tables, run here). Then for F = enc(M): dec(F) "
-                   "has M's type, enc(dec(F)) = F, and dec(enc(dec(G))) = dec(G).",
+                   "has M's type, enc(dec(F)) = F, and dec(enc(dec(G))) = dec(G). Encoders propagate every error (E-prop on the encode closure: a swallowed Err would let a partly written element pass); the loop-completeness and list-integrity rules of C10 / C15 / C16 / C17 are part of the imported rule sets.",
     "assumptions": ["inputs with duplicate keys or unrecognised bias signals are outside the decided part (the property weakens the claim there too)"],
 }
 
